@@ -112,10 +112,12 @@ func (m *Manager) connect(recursed bool) (err error) {
 
 	// `Close` might have been called while the connection was being established.
 	// It could not close this connection (it did not exist yet), so it is closed here.
+	// The lock is held until the connection is set up. `Close` closes what it finds: it must
+	// not find a connection that is half set up (or the state of the connection before).
 	m.skipReconnectMu.RLock()
 	closed := m.skipReconnect
-	m.skipReconnectMu.RUnlock()
 	if closed {
+		m.skipReconnectMu.RUnlock()
 		activeMu.Lock()
 		active = false
 		activeMu.Unlock()
@@ -146,6 +148,7 @@ func (m *Manager) connect(recursed bool) (err error) {
 
 	m.eioPacketQueue = newPacketQueue()
 	go m.eioPacketQueue.pollAndSend(_eio)
+	m.skipReconnectMu.RUnlock()
 	m.openHandlers.forEach(func(handler *ManagerOpenFunc) { (*handler)() }, true)
 	return
 }
